@@ -136,7 +136,7 @@ func (m *MessageDescriptor) ByNumber(id FieldNumber) *FieldDescriptor {
 }
 
 func (m *MessageDescriptor) FieldsCount() int {
-	return m.ids.Size() - 1
+	return len(m.ids.All())
 }
 
 type MethodDescriptor struct {
